@@ -88,8 +88,12 @@ def run(tier, seed):
             require_on_success(rep, rid, ctx, dd, [
                 ("decoded length == header length", len_pat),
                 ("running CRC == header CRC", crc_pat),
-                ("read loop ran until lha_reader_read returned 0",
-                 ("ule", ("call", "lha_reader_read", [("param", 0), ANY, ANY]), 0)),
+            ])
+            from ..rules import require_on_success_alt
+            rdc = ("call", "lha_reader_read", [("param", 0), ANY, ANY])
+            require_on_success_alt(rep, rid, ctx, dd, [
+                ("read loop ran until lha_reader_read returned 0 (<= 0)", None, [("lha_reader_read(...) <= 0", ("ule", rdc, 0))]),
+                ("read loop ran until lha_reader_read returned 0 (== 0)", None, [("lha_reader_read(...) == 0", ("eq", rdc, 0))]),
             ])
             # R6 full width
             rid6 = rep.rule("R6", "both comparisons are full width (64-bit length, 16-bit CRC, no truncation or masking)", 2)
